@@ -36,6 +36,12 @@ def gen_cases(tier, seed):
             cases.append({"clf": name, "seed": s, "regime": REGIMES[i % len(REGIMES)], "ckind": CLASS_KINDS[(i // 2) % 3],
                           "K": 2 + (s % 3), "weights": bool((s >> 4) % 2), "cost": bool((s >> 6) % 2),
                           "partial": bool((s >> 8) % 3 == 0)})
+    # degenerate training sets of the default GaussianNB (NaN probabilities -> documented fall-back): several classes observed,
+    # default costs, so that the most frequent class is generally not the first one
+    for i in range({"quick": 16, "thorough": 300}[tier]):
+        s = stable_hash(seed, "C11", "nb-degenerate", i) | 32        # (bit 5 set: coinciding labelled rows)
+        cases.append({"clf": "sk_nb_default", "seed": s, "regime": ["half", "random"][i % 2], "ckind": CLASS_KINDS[i % 3], "K": 3,
+                      "weights": False, "cost": False, "partial": bool(i % 4 == 3)})
     for k, c in enumerate(cases):
         c["id"] = "%s-%04d" % (c["clf"], k)
     return cases
@@ -76,9 +82,7 @@ def _check_proba(P, n, K, add, what, atol=1e-8):
 
 def _delegation_judgeable(clf, Q):
     """predict delegated to a wrapped estimator: the decision can be judged against the reported probabilities unless a
-    wrapper in the chain is in its documented not-fitted fall-back (predictions are then DRAWN from the label distribution)
-    or the third-party estimator at the bottom returns non-finite probabilities itself (its own failure; the wrapper
-    replaces them in predict_proba only)."""
+    wrapper in the chain is in its documented not-fitted fall-back (predictions are then DRAWN from the label distribution)."""
     cur = clf
     for _ in range(4):
         if getattr(cur, "is_fitted_", True) is False:
@@ -87,12 +91,8 @@ def _delegation_judgeable(clf, Q):
         if nxt is None:
             break
         cur = nxt
-    if not hasattr(cur, "missing_label") and hasattr(cur, "predict_proba"):
-        try:
-            if not np.isfinite(np.asarray(cur.predict_proba(Q), dtype=float)).all():
-                return False
-        except Exception:
-            return False
+    # (non-finite probabilities of the third-party estimator at the bottom are replaced by the label distribution in
+    # predict_proba - and predict has to follow that distribution: judged)
     return True
 
 
@@ -118,6 +118,11 @@ def run_case(desc):
         X = gen.make_X(rng, n, d, gen.DATA_MODES[rng.randint(len(gen.DATA_MODES))])
         y_true, lab = gen.make_labels(rng, n, regime, kind="clf", n_classes=K)
         y_id = y_true.astype(int)
+    if name == "sk_nb_default" and (desc["seed"] >> 5) % 2 and lab.any():
+        # coinciding labelled rows: zero variance, the wrapped GaussianNB returns NaN probabilities and the wrapper's
+        # documented fall-back (label distribution) answers - for predict_proba and for predict alike
+        X = np.array(X, dtype=float)
+        X[lab] = X[np.flatnonzero(lab)[0]]
     n_annot = 3
     if multi:
         if regime == "cold":
